@@ -17,7 +17,7 @@ PROPS = {
         "level_note": "Trusted: Lean kernel; regex and log crates; the hand-written Spec model is validated against the code only on the generated "
                       "cases (bounded, seeded). Quantifier restricted to specs naming each module at most once (as the property states).",
         "correspondence": "Spec model (parse/level_sort/enabled/route/enabledQuery/gate) vs LogSpecification + boxed FlexiLogger from Logger::build()",
-        "rule": "seeded structured specs (builder and parsed strings; names that are prefixes/equal length/level words/non-ASCII) x "
+        "rule": "run-time change to a specification differing only in the text filter, and back (1/3 of the cases); seeded structured specs (builder and parsed strings; names that are prefixes/equal length/level words/non-ASCII) x "
                 "grid of derived targets x 5 levels x messages vs regexes; a case is non-trivial if at least one decision was "
                 "checked against the declarative longest-prefix oracle; distinct = distinct op sequences",
         "trusted": SPEC_TRUST,
@@ -31,7 +31,7 @@ PROPS = {
         "level_note": "Trusted: Lean kernel; the Handle model is validated against the code on generated sequences only; the hidden stack is observed "
                       "through depth+2 trailing pops. One genuine defect was repaired (fix: 6264abc).",
         "correspondence": "Spec.Handle model vs LoggerHandle::{set_new_spec,parse_new_spec,push_temp_spec,parse_and_push_temp_spec,pop_temp_spec}",
-        "rule": "seeded op sequences of the five reconfiguration methods with well-formed and malformed strings, nested pushes, "
+        "rule": "additional writers with ceilings 0..5 in a third of the cases (the gate is the maximum over the active specification and them); seeded op sequences of the five reconfiguration methods with well-formed and malformed strings, nested pushes, "
                 "pops beyond the stack; after every op the enabled grid and log::max_level() are compared; each sequence ends "
                 "with depth+2 pops; non-trivial = contains a rejected string or a pop",
         "trusted": SPEC_TRUST,
@@ -117,7 +117,7 @@ PROPS = {
                       "order of names (rendering order-preserving for 4-digit years, index < 100000, suffix sorting before 'restart'). No cleanup (as the property says).",
         "correspondence": "Flw model (step/readAll/parts/render) vs real FileLogWriter on real files with the virtual clock",
         "rule": "seeded histories: record lengths {1,2,N-1,N,N+1,3N+7,cap+1,random} x N in {0,1,5,16,40,64} x namings x Size/Age/AgeOrSize x cap {none,1,4,8,N,8192} x "
-                "name-part combinations x custom formats; clock mostly frozen/+1s with minute/hour/day/month jumps; non-trivial = at least one rotation happened",
+                "name-part combinations x custom formats; clock mostly frozen/+1s with minute/hour/day/month jumps; plus 40 (thorough: 600 per seed) histories of appending runs across a month end with every timestamp format incl. the day-first one; non-trivial = at least one rotation happened",
         "trusted": ["OS file system semantics (rename, append, truncate)", "std::io::BufWriter", "chrono formatting of the infix"],
         "assumptions": ["monotone clock", "4-digit years, rotation index < 100000, < 10000 restarts per second, suffix sorts before 'restart'"],
     },
@@ -129,7 +129,7 @@ PROPS = {
                       "independent greedy oracle on the real files.",
         "level_note": "Single runs: the partition theorems above. Across restarts (Props/C08Restart, all four namings, append on/off per run, no cleanup): in every reachable state the counter equals the length of the file the writer writes to, buffer included (size_is_file_length); a run that appends starts its counter at the size of the file it finds, a run that does not append at 0 (restart_counter); at every write the writer rotates first iff that file already holds more than N bytes, whichever run wrote them (size_rule_multi_run; size_rule_files in the reader's view for the rCURRENT namings). For the non-rotating writer the counter is not maintained (plain_counter_is_not_file_length) and never read.",
         "correspondence": "Flw model vs real FileLogWriter (PARTS = sizes in reading order)",
-        "rule": "size-only criteria, N from 0, boundary lengths, LF records, all namings, modes direct/buffered/bufflush/async, append restarts; non-trivial = rotation or restart happened",
+        "rule": "size-only criteria, N from 0, boundary lengths, LF records, all namings, modes direct/buffered/bufflush/async, append restarts; plus 150 (thorough: 2000 per seed) histories with a cleanup strategy in the rotating thread whose steps fail (injected remove/compress faults); non-trivial = rotation or restart happened",
         "trusted": ["OS file system semantics", "std::io::BufWriter"],
     },
     "C09": {
@@ -138,9 +138,11 @@ PROPS = {
                       "namings/capacities via refines_all); Age.trunc on the packed civil stamp is exactly the year/month/day[/hour/minute/second] comparison of the code "
                       "(trunc_iff_fields); age-or-size = disjunction. Differential check under a virtual clock with second/minute/hour/day/month jumps, leap day, year end.",
         "level_note": "Across restarts (Props/C09Restart, all four namings, no cleanup): the writer's start time always equals the recorded creation time of the file it writes to (created_is_birth_time); an appending restart rotates at its first write iff the file it found was started in another (for a monotone clock: earlier) period, and otherwise continues it; a non-appending restart starts a file whose start time is the time of its first write (appending_restart_age, nonappending_restart_created, age_rule_multi_run). Trusted: chrono's civil-time arithmetic (the harness converts stamps); worker processes run in UTC and in fixed-offset zones +05:30, -03:30, +05:45, +08:45, -09:30, +14, -12 (the virtual clock is local civil time, the model is zone-independent); non-monotone local time at DST fall-back is outside "
-                      "(stated assumption); file birth times are replaced by the creation-time table hook under virtual time.",
-        "correspondence": "Flw model vs real FileLogWriter under the virtual clock hook",
-        "rule": "age-only and age-or-size(inactive) criteria x 4 ages x namings x caps, append restarts in the same/a later period; non-trivial = rotation or restart happened",
+                      "(stated assumption); file birth times are replaced by the creation-time table hook under virtual time — except in the real-clock cases (`NOTE realclock`, harness realclock.rs): there "
+                      "nothing is virtual, the executor sleeps into the intended seconds, the file system supplies birth and modification times, the names are compared as second offsets (STAMPS), "
+                      "and an oracle independent of the model demands that a current file rotated out at start carries the second of its birth (stat), not of its last write.",
+        "correspondence": "Flw model vs real FileLogWriter under the virtual clock hook; 8 (thorough: 16 per seed) cases under the real clock with the real file-system times",
+        "rule": "age-only and age-or-size(inactive) criteria x 4 ages x namings x caps, append restarts in the same/a later period; real-clock shapes: restart rotates out a file written over two seconds, buffered append restart in the second of the last flush, size rotation after an append restart, age rotation under every naming; non-trivial = rotation or restart happened",
         "trusted": ["chrono civil time", "virtual clock + creation-time table hooks (add-only, cfg-guarded)"],
         "assumptions": ["monotone local clock"],
     },
@@ -164,7 +166,7 @@ PROPS = {
         "level_note": "PARTIAL for timing: the real flusher and writer threads are represented only at the granularity of the protocol steps; the delivery guarantee of "
                       "flush() is claimed for the synchronous modes only (as the property says). Known finding C04-async-clone-drop (not repaired, see known_findings.json).",
         "correspondence": "Flw model vs Logger::build() + LoggerHandle::{flush,shutdown,clone,drop}; child process stdout/stderr vs the lines logged",
-        "rule": "modes direct/buf/bufflush/async x with/without rotation x record volumes above and below the buffer x clone/drop/flush at seeded positions, ending by shutdown(), "
+        "rule": "the file writer as primary output or (1/4) as an additional writer `{flw}` of a logger without primary output x modes direct/buf/bufflush/async x with/without rotation x record volumes above and below the buffer x clone/drop/flush at seeded positions, ending by shutdown(), "
                 "two overlapping shutdown() calls with a slowed writer thread, or drop of the last handle; 40 child-process runs to stdout/stderr; non-trivial = more than one record reached the observation point",
         "trusted": ["std::io::BufWriter", "crossbeam channel FIFO", "process exit does not lose data already handed to write(2)"],
         "shards": 8,
